@@ -206,7 +206,8 @@ class RdmsOps:
             return False
         by = self._by(src.obj, 'rdm', o['a'][0])
         gv, vals = self._values(src.obj, 'rdm', by, o, False)
-        arg = vals[0] if (len(vals) == 1 and o['flag']) else (np.array(vals) if o['flag2'] else list(vals))
+        listed = list(vals) + ([vals[0]] if o['a'][3] % 4 == 0 else [])      # a value named twice selects each match once
+        arg = vals[0] if (len(listed) == 1 and o['flag']) else (np.array(listed) if o['flag2'] else list(listed))
         try:
             res = src.obj.subset(by, arg)
         except Exception as e:
@@ -244,7 +245,8 @@ class RdmsOps:
             return False
         by = self._by(src.obj, 'pattern', o['a'][0])
         gv, vals = self._values(src.obj, 'pattern', by, o, False)
-        arg = vals[0] if (len(vals) == 1 and o['flag']) else (np.array(vals) if o['flag2'] else list(vals))
+        listed = list(vals) + ([vals[0]] if o['a'][3] % 4 == 0 else [])
+        arg = vals[0] if (len(listed) == 1 and o['flag']) else (np.array(listed) if o['flag2'] else list(listed))
         if isinstance(arg, str):
             arg = [arg]     # a bare string is iterated character-wise by the library: pass strings in a list
         try:
@@ -517,13 +519,17 @@ class RdmsOps:
         kw = {}
         if o['a'][4] % 3 == 0:
             kw['target_pdesc'] = 'uid'
+        lst = [s.obj for s in ops]
         try:
             if o['flag']:
-                res = concat([s.obj for s in ops], **kw)
+                res = concat(lst if o['a'][5] % 2 else tuple(lst), **kw)
             else:
-                res = concat(*[s.obj for s in ops], **kw)
+                res = concat(*lst, **kw)
         except Exception as e:
             return self._raise('concat', e)
+        if len(lst) != len(ops) or any(a is not b.obj for a, b in zip(lst, ops)):
+            self.pool.report('C12', 'bystander', 'bystander:concat:argument:list-elements',
+                             'concat(list_of_rdms) replaced elements of the caller\'s list by other objects')
         ru = []
         missing = set()
         for s in ops:
